@@ -470,7 +470,8 @@ package main
 //@ func ExprToType
 //@   trusted
 //@   panics may
-//@   note abstract: the type of an expression (inference context)
+//@   returns-def exprtype(expr)
+//@   note abstract: the type of an expression; exprtype names the value of this pure function of the expression tree
 
 //@ func GenFuncVar
 //@   props C08 C10 C03 C15
@@ -529,12 +530,27 @@ package main
 // rank(left) >= rank(op) and rank(right) > rank(op) - i.e. the published table with left association.
 // ---------------------------------------------------------------------------------------------
 
-//@ func psSkipEOL
-//@   trusted
+//@ func tkzNextNOL
+//@   props C06 C16
+//@   requires live: livet(tkz)
 //@   panics may
-//@   returns skipeol(ps)
-//@   ensures live: live(ps) ==> live(result) && samebuf(result, ps) && result.tkz.current.begin >= ps.tkz.current.begin
-//@   note abstract: skips EOL tokens (recursion over the tokenizer); may panic on a scanner error
+//@   decreases len(tkz.buf) - tkz.current.begin
+//@   ensures not-eol: result.current.ttype != New_TokenType_EOL
+//@   ensures live: livet(result) && result.buf == tkz.buf
+//@   ensures mono: result.current.begin >= tkz.current.begin
+//@   inline-call tkzNext#0
+//@   note tkzNext is executed in place (over SMT strings); nextToken is used through its contract
+
+//@ func psSkipEOL
+//@   props C06 C16
+//@   requires live: live(ps)
+//@   panics may
+//@   returns-def skipeol(ps)
+//@   ensures not-eol: result.tkz.current.ttype != New_TokenType_EOL
+//@   ensures fix: ps.tkz.current.ttype != New_TokenType_EOL ==> result == ps
+//@   ensures frame: result.scope == ps.scope && result.offsideCol == ps.offsideCol && result.tvc == ps.tvc && result.tdctx == ps.tdctx
+//@   ensures live: live(result) && samebuf(result, ps) && result.tkz.current.begin >= ps.tkz.current.begin
+//@   note skipeol(ps) is DEFINED as the state this function returns; the axioms skipeol-idem and skipeol-frame (externals.spec) follow from the clauses not-eol, fix and frame proved here
 
 //@ func psConsume
 //@   props C15 C08 C07 C16
@@ -1075,12 +1091,6 @@ package main
 //@   returns is_default_mr(ps)
 //@   note abstract: "| _" follows (token look-ahead)
 
-//@ func parseUnionMatchRules
-//@   trusted
-//@   panics may
-//@ func parseDefaultMatchRule
-//@   trusted
-//@   panics may
 
 //@ func parseURules
 //@   props C09
@@ -1088,6 +1098,10 @@ package main
 //@   ghost P ParseState          -- the state after the union arms
 //@   ghost US []UnionMatchRule   -- the arms
 //@   ghost TT FType              -- the type of the matched expression
+//@   requires live: live(ps)
+//@   requires offside-stack-non-empty: len(ps.offsideCol) >= 1
+//@   requires block-parser-keeps-the-token-stream: forall p ParseState :: {pBlock(p)} live(p) ==> live(pBlock(p).E0) && samebuf(pBlock(p).E0, p)
+//@   requires block-parser-keeps-the-offside-stack: forall p ParseState :: {pBlock(p)} pBlock(p).E0.offsideCol == p.offsideCol
 //@   panics may
 //@   ensures default-only-inside-offside: is(UnionMatchRules_UCaseWD, result.E1) ==> len(P.offsideCol) > 0 && P.tkz.col >= P.offsideCol[len(P.offsideCol) - 1] && is_default_mr(P)
 //@   ensures no-default-means-checked: is(UnionMatchRules_UCaseOnly, result.E1) && is(FType_FUnion, TT) ==> has_uniinfo(FType_FUnion_Value(TT)) && !(exists i int :: 0 <= i && i < len(uniinfo(FType_FUnion_Value(TT)).Cases) && (forall j int :: 0 <= j && j < len(US) ==> US[j].UnionPattern.CaseId != uniinfo(FType_FUnion_Value(TT)).Cases[i].Name))
@@ -1437,3 +1451,169 @@ package main
 //@   ensures registered: result.E1 ==> UT == result.E0 && result.E0.Name == uf.Name && len(result.E0.Targs) == 0 && UI.Cases == uf.Cases
 //@   at before call updateUniInfo#0: UI = ui
 //@   at before call updateUniInfo#0: UT = ut
+
+// ---------------------------------------------------------------------------------------------
+// C06, grammar-level layout: wherever the grammar allows a line break (after `=` of a let, after `->` of
+// a match arm, after then / else), the parser of what follows is started at a token that is not an
+// end-of-line token - so "same line or next line" cannot make a difference to it.
+// ---------------------------------------------------------------------------------------------
+
+//@ func InferExpr
+//@   trusted
+//@   modifies maps
+//@   panics may
+//@   note abstract: type inference of one expression (unification over the resolver's dictionaries)
+
+//@ func scDefVar
+//@   trusted
+//@   modifies maps
+//@   panics may
+//@   note abstract: defines a variable in the innermost dictionary of the scope
+
+//@ func parseLetOneVarDef
+//@   props C06
+//@   modifies maps
+//@   requires live: live(ps)
+//@   panics may
+//@   ensures rhs-parsed-once: calls(pExpr) == old(calls(pExpr)) + 1
+//@   ensures rhs-starts-after-line-breaks: arg(pExpr, old(calls(pExpr))) == skipeol(advn(ps, 3)) && arg(pExpr, old(calls(pExpr))).tkz.current.ttype != New_TokenType_EOL
+//@   ensures let-name-eq: ps.tkz.current.ttype == New_TokenType_LET && adv(ps).tkz.current.ttype == New_TokenType_IDENTIFIER && advn(ps, 2).tkz.current.ttype == New_TokenType_EQ
+
+//@ func psIdentOrUSNameNx
+//@   props C06
+//@   requires live: live(ps)
+//@   panics may
+//@   ensures live: live(result.E0) && samebuf(result.E0, ps)
+
+//@ func newVar
+//@   trusted
+//@   panics never
+
+//@ func parseLetDestVarDef
+//@   props C06
+//@   modifies maps
+//@   requires live: live(ps)
+//@   panics may
+//@   ensures rhs-parsed-once: calls(pExpr) == old(calls(pExpr)) + 1
+//@   ensures rhs-starts-after-line-breaks: arg(pExpr, old(calls(pExpr))).tkz.current.ttype != New_TokenType_EOL
+//@   inline-call ParseList2
+//@   loop ParseList2/0:
+//@     invariant live: live(ps) && samebuf(ps, old(ps))
+//@     invariant no-rhs-yet: calls(pExpr) == old(calls(pExpr))
+
+//@ func psStringValNx
+//@   props C06
+//@   requires live: live(ps)
+//@   panics may
+//@   ensures live: live(result.E0) && samebuf(result.E0, ps)
+
+//@ func parseStringMatchRule
+//@   props C06
+//@   modifies maps
+//@   requires live: live(ps)
+//@   panics may
+//@   ensures body-parsed-once: calls(pBlock) == old(calls(pBlock)) + 1
+//@   ensures body-starts-after-line-breaks: arg(pBlock, old(calls(pBlock))).tkz.current.ttype != New_TokenType_EOL
+
+//@ func parseStringVarRule
+//@   props C06
+//@   modifies maps
+//@   requires live: live(ps)
+//@   panics may
+//@   ensures body-parsed-once: calls(pBlock) == old(calls(pBlock)) + 1
+//@   ensures body-starts-after-line-breaks: arg(pBlock, old(calls(pBlock))).tkz.current.ttype != New_TokenType_EOL
+
+//@ func parseDefaultMatchRule
+//@   props C06 C09
+//@   modifies maps
+//@   requires live: live(ps)
+//@   panics may
+//@   ensures body-parsed-once: calls(pBlock) == old(calls(pBlock)) + 1
+//@   ensures body-starts-after-line-breaks: arg(pBlock, old(calls(pBlock))).tkz.current.ttype != New_TokenType_EOL
+
+//@ func lookupCase
+//@   trusted
+//@   panics may
+//@   note abstract: the case of a union by name, from the global union-info table
+
+//@ func parseUnionMatchRule
+//@   props C06 C09
+//@   modifies maps
+//@   requires live: live(ps)
+//@   requires block-parser-keeps-the-token-stream: forall p ParseState :: {pBlock(p)} live(p) ==> live(pBlock(p).E0) && samebuf(pBlock(p).E0, p)
+//@   requires block-parser-keeps-the-offside-stack: forall p ParseState :: {pBlock(p)} pBlock(p).E0.offsideCol == p.offsideCol
+//@   panics may
+//@   ensures live: live(result.E0) && samebuf(result.E0, ps)
+//@   ensures offside-stack-kept: result.E0.offsideCol == ps.offsideCol
+//@   ensures C09 binding-arm-needs-a-union-target: result.E1.UnionPattern.VarName != "" && result.E1.UnionPattern.VarName != "_" ==> is(FType_FUnion, exprtype(target))
+//@   ensures body-parsed-once: calls(pBlock) == old(calls(pBlock)) + 1
+//@   ensures body-starts-after-line-breaks: arg(pBlock, old(calls(pBlock))).tkz.current.ttype != New_TokenType_EOL
+
+//@ func parseParams
+//@   trusted
+//@   modifies maps
+//@   panics may
+//@   ensures live: live(ps) ==> live(result.E0) && samebuf(result.E0, ps)
+//@   note abstract: the parameter list of a let / fun (defines the parameters in the current scope)
+
+//@ func parseBlock
+//@   trusted
+//@   modifies maps
+//@   panics may
+//@   ensures live: live(ps) ==> live(result.E0) && samebuf(result.E0, ps)
+//@   note abstract: a block of statements (its offside discipline is the subject of the primitives' contracts)
+
+//@ func blockToExpr
+//@   trusted
+//@   panics may
+
+//@ func parseLetFuncDef
+//@   props C06
+//@   modifies maps
+//@   ghost P ParseState          -- the state at which the body block is parsed
+//@   requires live: live(ps)
+//@   panics may
+//@   ensures body-starts-after-line-breaks: P.tkz.current.ttype != New_TokenType_EOL
+//@   at before call parseBlock#0: P = _r0
+
+//@ func newIfElseCall
+//@   trusted
+//@   panics may
+//@ func newIfOnlyCall
+//@   trusted
+//@   panics may
+//@ func exprOnlyBlock
+//@   trusted
+//@   panics never
+
+// if ... then / else on several lines: every block body is parsed from a token that is not an end-of-line
+//@ func parseIfAfterIfExpr
+//@   props C06
+//@   modifies maps
+//@   requires live: live(ps)
+//@   requires sub-parsers-keep-the-token-stream: forall p ParseState :: {pExpr(p)} live(p) ==> live(pExpr(p).E0) && samebuf(pExpr(p).E0, p)
+//@   requires block-parser-keeps-the-token-stream: forall p ParseState :: {pBlock(p)} live(p) ==> live(pBlock(p).E0) && samebuf(pBlock(p).E0, p)
+//@   panics may
+//@   ensures blocks-start-after-line-breaks: forall j int :: old(calls(pBlock)) <= j && j < calls(pBlock) ==> arg(pBlock, j).tkz.current.ttype != New_TokenType_EOL
+//@   ensures live: live(result.E0) && samebuf(result.E0, ps)
+
+// the arms of a union match: the list goes on exactly while the next token (after line breaks) is a `|` that
+// lies inside the enclosing offside line and does not start the default arm - tested on the state reached,
+// not on the state the match started in
+//@ func parseUnionMatchRules
+//@   props C06 C09
+//@   modifies maps
+//@   requires live: live(ps)
+//@   requires offside-stack-non-empty: len(ps.offsideCol) >= 1
+//@   requires block-parser-keeps-the-token-stream: forall p ParseState :: {pBlock(p)} live(p) ==> live(pBlock(p).E0) && samebuf(pBlock(p).E0, p)
+//@   requires block-parser-keeps-the-offside-stack: forall p ParseState :: {pBlock(p)} pBlock(p).E0.offsideCol == p.offsideCol
+//@   panics may
+//@   ensures arms-end-at-the-offside-line: !(result.E0.tkz.col >= result.E0.offsideCol[len(result.E0.offsideCol) - 1] && result.E0.tkz.current.ttype == New_TokenType_BAR && !is_default_mr(result.E0))
+//@   ensures at-least-one-arm: len(result.E1) >= 1
+//@   ensures offside-stack-kept: result.E0.offsideCol == ps.offsideCol
+//@   ensures live: live(result.E0) && samebuf(result.E0, ps)
+//@   inline-call ParseList2
+//@   loop ParseList2/0:
+//@     invariant live: live(ps) && samebuf(ps, old(ps))
+//@     invariant offside: ps.offsideCol == old(ps).offsideCol
+//@     invariant arms: len(res) >= 1
